@@ -4,22 +4,22 @@ property, extra trusted-base entries, what is partial."""
 PROPS = {
     "C01": {
         "suites": ["crash", "segment", "faultmodel"],
-        "partial": "the WAL-level crash statement is a theorem about the I/O-action model Model/Crash.lean (programs of StoreLogs with rotation and base reset, both truncations, Set and Open; process crash and power loss with any per-file choice of surviving un-fsynced batches and directory entries; any number of recoveries themselves cut by crashes), proved for every state satisfying the invariant QuiescentS, which is itself proved to hold initially, after every call and after every recovery; the model is tied to wal.go by the crash suite (per call: the real I/O event sequence = the model's program; per crash point and {process crash, nothing/everything un-fsynced surviving}: the log the real Open recovers = the model's; nested restarts; the invariant evaluated on every shadowed state). Granularity of the model is the batch: that a torn batch is recovered as absent or whole is the byte-level theorem (L1, batch_atomic_any_tear) — the two levels are linked by matching statements and by the chunk-granular crash suite, not by a mechanised composition. I/O errors are C10's; BoltDB's atomic durable commit and the OS fsync contract (C07) are assumed",
+        "partial": "the WAL-level crash statement is a theorem about the I/O-action model Model/Crash.lean (programs of StoreLogs with rotation and base reset, both truncations, Set and Open; process crash and power loss with any per-file choice of surviving un-fsynced batches and directory entries; any number of recoveries themselves cut by crashes), proved for every state satisfying the invariant QuiescentS, which is itself proved to hold initially, after every call and after every recovery; the model is tied to wal.go by the crash suite (per call: the real I/O event sequence = the model's program; per crash point and {process crash, nothing/everything un-fsynced surviving}: the log the real Open recovers = the model's; nested restarts; the invariant evaluated on every shadowed state). Granularity of the model is the batch: that a torn batch is recovered as absent or whole is the byte-level theorem (L1, batch_atomic_any_tear) — for one segment file the two levels are linked by theorem in both directions (Props/C02 byte_level_refines_protocol_file, protocol_outcomes_realised_at_byte_level, over chains of appends, tears, recoveries and restarts); the composition with the multi-file protocol is the L2 development plus the chunk-granular crash suite. I/O errors are C10's; BoltDB's atomic durable commit and the OS fsync contract (C07) are assumed",
         "assumptions": ["disk model of DESIGN §5 (8-byte chunk granularity, fsync semantics, atomic meta commits)", "simfs mirrors the production fs package (probed at start-up; C07 checks the real layer)"],
     },
     "C02": {
         "suites": ["crash", "segment"],
-        "partial": "the WAL-level crash statement is a theorem about the I/O-action model Model/Crash.lean (programs of StoreLogs with rotation and base reset, both truncations, Set and Open; process crash and power loss with any per-file choice of surviving un-fsynced batches and directory entries; any number of recoveries themselves cut by crashes), proved for every state satisfying the invariant QuiescentS, which is itself proved to hold initially, after every call and after every recovery; the model is tied to wal.go by the crash suite (per call: the real I/O event sequence = the model's program; per crash point and {process crash, nothing/everything un-fsynced surviving}: the log the real Open recovers = the model's; nested restarts; the invariant evaluated on every shadowed state). Granularity of the model is the batch: that a torn batch is recovered as absent or whole is the byte-level theorem (L1, batch_atomic_any_tear) — the two levels are linked by matching statements and by the chunk-granular crash suite, not by a mechanised composition. CRC-32C collisions are outside the statement (explicit disjuncts of the L1 theorem)",
+        "partial": "the WAL-level crash statement is a theorem about the I/O-action model Model/Crash.lean (programs of StoreLogs with rotation and base reset, both truncations, Set and Open; process crash and power loss with any per-file choice of surviving un-fsynced batches and directory entries; any number of recoveries themselves cut by crashes), proved for every state satisfying the invariant QuiescentS, which is itself proved to hold initially, after every call and after every recovery; the model is tied to wal.go by the crash suite (per call: the real I/O event sequence = the model's program; per crash point and {process crash, nothing/everything un-fsynced surviving}: the log the real Open recovers = the model's; nested restarts; the invariant evaluated on every shadowed state). Granularity of the model is the batch: that a torn batch is recovered as absent or whole is the byte-level theorem (L1, batch_atomic_any_tear) — for one segment file the two levels are linked by theorem in both directions (Props/C02 byte_level_refines_protocol_file, protocol_outcomes_realised_at_byte_level, over chains of appends, tears, recoveries and restarts); the composition with the multi-file protocol is the L2 development plus the chunk-granular crash suite. CRC-32C collisions are outside the statement (explicit disjuncts of the L1 theorem)",
         "assumptions": ["CRC-32C collisions excluded as stated in the theorem", "disk model of DESIGN §5"],
     },
     "C03": {
         "suites": ["crash", "segment", "opendamage"],
-        "partial": "the WAL-level crash statement is a theorem about the I/O-action model Model/Crash.lean (programs of StoreLogs with rotation and base reset, both truncations, Set and Open; process crash and power loss with any per-file choice of surviving un-fsynced batches and directory entries; any number of recoveries themselves cut by crashes), proved for every state satisfying the invariant QuiescentS, which is itself proved to hold initially, after every call and after every recovery; the model is tied to wal.go by the crash suite (per call: the real I/O event sequence = the model's program; per crash point and {process crash, nothing/everything un-fsynced surviving}: the log the real Open recovers = the model's; nested restarts; the invariant evaluated on every shadowed state). Granularity of the model is the batch: that a torn batch is recovered as absent or whole is the byte-level theorem (L1, batch_atomic_any_tear) — the two levels are linked by matching statements and by the chunk-granular crash suite, not by a mechanised composition. usability = Open succeeds and every legal call then behaves as specified; the real code's append/read/stable-set after every recovered image is exercised by the crash suite's continuation and usability probes",
+        "partial": "the WAL-level crash statement is a theorem about the I/O-action model Model/Crash.lean (programs of StoreLogs with rotation and base reset, both truncations, Set and Open; process crash and power loss with any per-file choice of surviving un-fsynced batches and directory entries; any number of recoveries themselves cut by crashes), proved for every state satisfying the invariant QuiescentS, which is itself proved to hold initially, after every call and after every recovery; the model is tied to wal.go by the crash suite (per call: the real I/O event sequence = the model's program; per crash point and {process crash, nothing/everything un-fsynced surviving}: the log the real Open recovers = the model's; nested restarts; the invariant evaluated on every shadowed state). Granularity of the model is the batch: that a torn batch is recovered as absent or whole is the byte-level theorem (L1, batch_atomic_any_tear) — for one segment file the two levels are linked by theorem in both directions (Props/C02 byte_level_refines_protocol_file, protocol_outcomes_realised_at_byte_level, over chains of appends, tears, recoveries and restarts); the composition with the multi-file protocol is the L2 development plus the chunk-granular crash suite. usability = Open succeeds and every legal call then behaves as specified; the real code's append/read/stable-set after every recovered image is exercised by the crash suite's continuation and usability probes",
         "assumptions": ["disk model of DESIGN §5"],
     },
     "C04": {
         "suites": ["crash", "wal", "fault"],
-        "partial": "the WAL-level crash statement is a theorem about the I/O-action model Model/Crash.lean (programs of StoreLogs with rotation and base reset, both truncations, Set and Open; process crash and power loss with any per-file choice of surviving un-fsynced batches and directory entries; any number of recoveries themselves cut by crashes), proved for every state satisfying the invariant QuiescentS, which is itself proved to hold initially, after every call and after every recovery; the model is tied to wal.go by the crash suite (per call: the real I/O event sequence = the model's program; per crash point and {process crash, nothing/everything un-fsynced surviving}: the log the real Open recovers = the model's; nested restarts; the invariant evaluated on every shadowed state). Granularity of the model is the batch: that a torn batch is recovered as absent or whole is the byte-level theorem (L1, batch_atomic_any_tear) — the two levels are linked by matching statements and by the chunk-granular crash suite, not by a mechanised composition. what a completed truncation means on the contiguous log is the C05 refinement; a DeleteRange whose meta commit fails with an I/O error is exercised by the fault suite",
+        "partial": "the WAL-level crash statement is a theorem about the I/O-action model Model/Crash.lean (programs of StoreLogs with rotation and base reset, both truncations, Set and Open; process crash and power loss with any per-file choice of surviving un-fsynced batches and directory entries; any number of recoveries themselves cut by crashes), proved for every state satisfying the invariant QuiescentS, which is itself proved to hold initially, after every call and after every recovery; the model is tied to wal.go by the crash suite (per call: the real I/O event sequence = the model's program; per crash point and {process crash, nothing/everything un-fsynced surviving}: the log the real Open recovers = the model's; nested restarts; the invariant evaluated on every shadowed state). Granularity of the model is the batch: that a torn batch is recovered as absent or whole is the byte-level theorem (L1, batch_atomic_any_tear) — for one segment file the two levels are linked by theorem in both directions (Props/C02 byte_level_refines_protocol_file, protocol_outcomes_realised_at_byte_level, over chains of appends, tears, recoveries and restarts); the composition with the multi-file protocol is the L2 development plus the chunk-granular crash suite. what a completed truncation means on the contiguous log is the C05 refinement; a DeleteRange whose meta commit fails with an I/O error is exercised by the fault suite",
         "assumptions": ["atomic durable meta commit (BoltDB)", "disk model of DESIGN §5"],
     },
     "C05": {
